@@ -1,11 +1,11 @@
 SPECIFICATION Spec
 CONSTANTS
-  Clients <- C1
-  Req <- R1
-  Nested <- NA
-  InspOf <- IA
-  Pool <- NoPool
-  Own = FALSE
+  Clients <- C2
+  Req <- R2
+  Nested <- NAB
+  InspOf <- IAB
+  Pool <- P1
+  Own = TRUE
 CHECK_DEADLOCK FALSE
 INVARIANT RecvMutex
 INVARIANT DispatchedOnce
